@@ -26,3 +26,7 @@ claim("C04", "runtime monitoring: exact-rational recombination oracle and a perm
       "About 9e4 (quick) / 6e5 (thorough) Angle values placed at and around whole seconds/minutes/degrees/hours and at +-(0.5*10^-n) of them are decomposed (dms_tuple, ra_tuple, deg2dms, dms2deg) and printed (dms_str, ra_str, both styles, n_dec -1..12; ~1.2e6 strings per quick run); ranges, integer types, no-60, sign placement and read-back within half a printed unit are checked on every result.",
       "read-back tolerance is half a unit of the last printed decimal + 1e-9 degree; 24h/360d after a carry is accepted (congruence)",
       "DESIGN.md section 3 C04")
+claim("C11", "runtime monitoring: post-condition wrapped around the real kepler_equation (rebound in every pymeeus module, so the library's own internal calls are judged) + relation oracles on generated orbits",
+      "1.4e5 (quick) / 3.6e6 (thorough) Kepler cases over e in [0, 0.999999] and M in [-1e4, 1e4] deg concentrated on multiples of 180 are judged by the residual / half-revolution / true-anomaly post-condition; vis-viva, orbit-length bounds and continuity at e = 0.95, k = (1+cos i)/2 on exactly feasible (incl. degenerate) triangles, and node passages (re-propagated with the library's own Kepler solver; Barker's equation for parabolas) are checked on generated inputs.",
+      "tolerances the property does not state are documented in the evidence assumptions and are error budgets of the shared formulas, on the loose side",
+      "DESIGN.md section 3 C11")
